@@ -9,7 +9,7 @@ import numpy
 from cv.core import MachineryError
 from cv.duck import DuckCalc, draw_case, draw_fractions, summary, twin_cases
 from cv.thermo_oracle import ThermoOracle
-from checks.c01 import compare, make_obj, read, replay_behaviours
+from checks.c01 import assembled, compare, make_obj, read, replay_behaviours
 
 LEVEL = "model_checking"
 
@@ -25,9 +25,13 @@ def main(ctx, replay=None):
     ctx.cov["rule"] = ("random spectra as in C01 with arbitrary positive heat-capacity fields; a case is (spectrum, class, strain "
                        "pair); plus all 15 shear keys x strain fields for adi==iso; expected values from TLC normal forms")
     ctx.assumptions += ["differentiation rules of Thermo.tla", "float evaluation of expm1", "CODATA literals (rtol 1e-7)"]
+    prev = None
     for ci, case in enumerate(cases):
         e = draw_fractions(rng, len(case["v"]))
         i, j = rng.choice(3, size=2, replace=False)
+        if case.get("twin") and prev is not None and len(prev[0]) == len(case["v"]):
+            e, i, j = prev                      # a twin keeps the strain fractions of its base too: same cell shape, another material
+        prev = (e, i, j)
         for kind, ei, ej in (("long", e[:, i], e[:, i]), ("offd", e[:, i], e[:, j])):
             ctx.count({"c": ci, "k": kind, "seed": ctx.seed, "h": float(case["freq"].sum())})
             exp = oracle.expected(kind, case, ei, ej)
@@ -49,6 +53,7 @@ def main(ctx, replay=None):
                 ctx.violation("diagonal gap negative with C_V > 0", {"case": case, "ei": ei}, {"clause": "nonneg", "kind": kind})
         if ci < 2:
             ctx.sample({"case": summary(case), "cv_min": float(case["cv"].min())})
+    assembled(ctx, oracle, cases, rng, ("gap",), "C02")
     replay_behaviours(ctx, oracle, cases, rng, ("gap", "adi"), check_cache=False)
     shear_identity(ctx, rng)
     scheduler_identity(ctx, rng, cases)
